@@ -394,6 +394,38 @@ def check(ctx):
                        f"the loop over {P} does not apply its pairs ({ {k: v for k, v in used.items()} }, stores={stores}): the type map is "
                        f"accepted and silently ignored", clause="casting them")
     ctx.count("loops over a type map", n_tf, 2)
+    # RESTR-given: "was a restriction requested?" (`if columns:`) is asked of the argument as given.  Once the list has been
+    # altered -- names removed, filtered -- an emptied request would read as "no restriction" and everything is returned.
+    ctx.rule("RESTR-given", "the truthiness test of a restriction parameter sees the caller's value (or an emptiness-preserving copy of it)")
+    n_given = 0
+    for q in READERS:
+        fn = repo.functions.get(q)
+        if fn is None:
+            continue
+        for P in [p_ for p_ in RESTRICT if p_ in fn.kwonly + fn.params]:
+            for t in [n.test for n in body_nodes(fn.node) if isinstance(n, (ast.If, ast.IfExp))]:
+                core = t.operand if isinstance(t, ast.UnaryOp) and isinstance(t.op, ast.Not) else t
+                if not (isinstance(core, ast.Name) and core.id == P):
+                    continue
+                n_given += 1
+                bad = []
+                for d in defs_reaching(fn, P, core):
+                    if d.kind == "param":
+                        continue
+                    v = d.value
+                    tv = norm(v) if v is not None else d.kind
+                    keeps = v is not None and (tv in (f"{P} or None", f"{P} or []", f"{P} or ()", f"list({P})", f"tuple({P})", f"list({P} or [])",
+                                                      f"{P} or {{}}", f"util.sequencify({P})")
+                                               or (isinstance(v, (ast.ListComp,)) and not any(g.ifs for g in v.generators)
+                                                   and norm(v.generators[0].iter) == P))
+                    if not keeps:
+                        bad.append(tv)
+                ctx.ob("RESTR-given", fn, f"`{norm(t)}` tests the {P} argument as given", t, not bad,
+                       f"{P} is tested as the caller passed it" if not bad else
+                       f"{P} has been rebound ({bad[0][:60]}) before `{norm(t)}` asks whether a restriction was requested: a request that the "
+                       f"rebinding empties (e.g. only the implicit column) then means `no restriction`, and every column is read",
+                       clause="reading with a column/key restriction equals reading everything and then selecting those")
+    ctx.note(f"RESTR-given: {n_given} truthiness test(s) of restriction parameters examined")
     # TYPE-late: the type map is applied to what was read; it is never handed to the foreign parser, whose own typed
     # parsing differs from parse-then-cast ("007" read as a string column stays "007", read-then-cast gives "7")
     from ..dataflow import depends_on
